@@ -70,5 +70,27 @@ def registry(n=None, init=False):
     return reg
 
 
+def _unit(prop, uid, targets, **kw):
+    from vf.pyunit import pyvc_unit
+    return pyvc_unit(prop, uid, lambda: registry(**kw), targets)
+
+
 def units(prop, tier):
-    return []
+    us = []
+    ns = (3,) if tier == 'quick' else (3, 4, 5, 6)
+    if prop == 'C01':
+        us.append(_unit(prop, 'kw.unseal', [KW + '.unseal']))
+        us.append(_unit(prop, 'kwp.unseal', [KWP + '.unseal']))
+        us += [_unit(prop, 'kw.W_inverse.n%d' % n, [W + 'W_inverse'], n=n) for n in ns]
+    elif prop == 'C02':
+        us.append(_unit(prop, 'kw.seal', [KW + '.seal']))
+        us.append(_unit(prop, 'kwp.seal', [KWP + '.seal']))
+        us.append(_unit(prop, 'kw.init', [KW + '.__init__', KWP + '.__init__'], init=True))
+        us += [_unit(prop, 'kw.W.n%d' % n, [W + 'W'], n=n) for n in ns]
+    return us
+
+
+# NOT PROVED: W / W_inverse for more than 6 semiblocks (per-value instantiation of the number of semiblocks; assumed + bounded beyond).
+# NOT PROVED: W(W_inverse(C)) == C / W_inverse(W(S)) == S (needed for unseal(seal(P)) == P): the 12+ nested E(D(.)) rewrites time out (57 s for n = 3).
+# NOTE: KWPMode never sets _done (KWMode does): a KWP object can seal/unseal repeatedly; the `_done` test in KWPMode is dead code.  No property
+#       of the list is violated by it (KW/KWP have no documented call-order automaton), so it is recorded here only.
